@@ -20,6 +20,7 @@
 (* rule = [ep, segs, branch, defaults, dom, dsegs] (dom = static subdomain or host text, <<>>   *)
 (*   for none; dsegs = <<>> or <<seg>>: a domain part with variables, e.g. <u>.example.com).    *)
 (* conv also carries hasmin, min, hasmax, max (ints; thousandths for float).                    *)
+(* rule.domnone / bind.subnone / map.dsub: subdomain left to Map(default_subdomain) (see NormMap).   *)
 (* map = [rules, host_matching, redirect_defaults, sort] (sort: 0 none, 1 sort_parameters,      *)
 (*   2 sort_parameters with sort_key = the value).                                              *)
 EXTENDS Integers, Sequences, FiniteSets, Text
@@ -265,6 +266,14 @@ BuildUrl(m, b, ep, vals, ext) ==
        IN [ok |-> TRUE, rule |-> i,
            url |-> IF rel THEN Root(b.script) \o path
                    ELSE b.scheme \o <<COLON, SLASH, SLASH>> \o host \o Root(b.script) \o path]
+
+\* ---------------------------------------------------------------- default_subdomain
+\* Map(default_subdomain=m.dsub): a rule declared without a subdomain (domnone) lives on the default subdomain,
+\* bind(subdomain=None) (subnone) binds on it; an explicitly empty subdomain stays empty.  Everything else in
+\* this module works on the resolved records.
+NormMap(m) == [m EXCEPT !.rules = [i \in 1..Len(m.rules) |->
+                 [m.rules[i] EXCEPT !.dom = IF m.rules[i].domnone /\ ~m.host_matching /\ m.rules[i].dsegs = <<>> THEN m.dsub ELSE @]]]
+NormBind(m, b) == [b EXCEPT !.sub = IF b.subnone /\ ~m.host_matching THEN m.dsub ELSE @]
 
 \* ---------------------------------------------------------------- Deliver
 \* what a server hands to the application for the URL u (a relative URL goes to the adapter's own host)
